@@ -122,13 +122,21 @@ class EAlias(Engine):
                        'mutation_with_self_operand', 'array_mutated', 'array_bitop_with_live_mask', 'run_under_lsb0')
 
     def plan(self, tier, base_seed):
-        return self.seeded_plan(tier, base_seed, quick=(16000, 40), thorough=(1200000, 60))
+        descs = self.seeded_plan(tier, base_seed, quick=(16000, 40), thorough=(1200000, 60))
+        for i, d in enumerate(descs):
+            if i % 40 == 7:
+                # size knob: objects of a page (4096 bytes) and more - copies of big stores may be made another way than small ones
+                d['big'] = True
+                d['n'] = 14
+        return descs
 
     def config(self, g, desc):
         init = []
         for _ in range(g.int(2, 4)):
             init.append({'cls': g.pick(CLASSES), 'bits': g.bits(g.length(48)), 'via': g.pick(['bin', 'str', 'str'])})
-        return {'avoid': bool(desc.get('avoid')), 'init': init,
+        if desc.get('big'):
+            init = [{'cls': g.pick(CLASSES), 'bits': g.bits(64), 'rep': g.pick([512, 513, 640, 1025]), 'via': 'bin'} for _ in range(2)]
+        return {'avoid': bool(desc.get('avoid')), 'init': init, 'big': bool(desc.get('big')),
                 'w_mut': g.pick([1, 2, 3]), 'w_probe': g.pick([0, 1, 2]), 'w_step': g.pick([0, 1, 2]), 'w_cache': g.pick([0, 1]),
                 # knob: isolation must hold whichever bit numbering is in force (other code paths are bound in lsb0 mode)
                 'lsb0': g.chance(0.25), 'bytealigned': g.chance(0.15)}
@@ -150,6 +158,9 @@ class EAlias(Engine):
         for e in cfg.get('init', [])[:6]:
             cls = e.get('cls') if e.get('cls') in CLASSES else 'Bits'
             bits = ''.join(c for c in str(e.get('bits', '')) if c in '01')
+            if isinstance(e.get('rep'), int) and 1 < e['rep'] <= 2048:
+                bits = bits * e['rep']
+                self.probe('big_objects')
             if e.get('via') == 'str':
                 lit = _literal(bits)
                 obj = getattr(self.B, cls)(lit)
@@ -669,7 +680,8 @@ class EAlias(Engine):
             self._after_mutation(tgt)
             return {tgt.serial} | tgt.coupled, f'mutate:Array.{aop}', {'st': st}
         op = str(ev.get('op'))
-        if (len(x) > 2048 or (ev.get('self_operand') and len(x) > 256)) and op in ('replace', 'imul', 'append', 'prepend', 'insert', 'iadd', 'overwrite', 'setslice', 'prop_bits'):
+        big_ok = bool(self.cfg.get('big')) and not ev.get('self_operand') and len(x) <= 300000 and op != 'imul'
+        if (len(x) > 2048 or (ev.get('self_operand') and len(x) > 256)) and not big_ok and op in ('replace', 'imul', 'append', 'prepend', 'insert', 'iadd', 'overwrite', 'setslice', 'prop_bits'):
             # repeated self-referential growth (x.replace('0b1', x) ...) is exponential: a workload bomb, not a library matter
             return set(), 'mutate:skipped-growth-of-large-target', {'st': 'skip'}
 
@@ -725,7 +737,10 @@ class EAlias(Engine):
             elif op == 'clear':
                 x.clear()
             elif op == 'replace':
-                x.replace('0b1', o)
+                if len(x) > 2048:
+                    x.replace('0b1', o, None, None, 3)      # (a big target: a few occurrences, not tens of thousands)
+                else:
+                    x.replace('0b1', o)
             elif op == 'prop_uint':
                 x.uint = abs(v) % (2 ** len(x)) if len(x) else 0
             elif op == 'prop_hex':
